@@ -4,6 +4,10 @@ import json, subprocess
 
 CHECKS = {
  # id: (technique, level text, level note, design_ref)
+ "C12": ("bounded-exhaustive enumeration (all symmetric patterns n<=5 x all permutations x all D-sign vectors x 5 value/regularisation variants; every vector in {0..n}^n as perm; all small encodings; all update/scale/offset/refactor histories to depth 4) on the real QDLDLFactorisation, backward-error oracle in dense arithmetic + exact rational zero-pivot oracle",
+         "Every case in the stated bound is factored, solved and (for histories) refactored by the real public clarabel::qdldl API; each result is judged from the returned L, D, Dinv, perm, inertia and counts against PAP'=LDL' elementwise with a 64*n*eps*|L||D||L'| bound, the regularisation rule, bitwise equality of refactor vs. fresh factorisation, and mandatory errors for every invalid permutation / structure / exactly-zero pivot.",
+         "dense reference arithmetic in mc/src/props/c12.rs is trusted; growth is bounded by construction (diagonally dominant or +-1 data); n<=40 random matrices only as a labelled sampling supplement",
+         "DESIGN.md §5 C12"),
  "C16": ("bounded-exhaustive enumeration of all small matrices / triplet sequences / raw CSC encodings / block tuples on the real CscMatrix code, dense reference oracle",
          "Every public CscMatrix operation is executed on every matrix up to 3x3 over {-1,0,1,2} and 4x3 over {-1,0,1} (thorough: {-1,0,1,2}), every triplet sequence up to length 4 (5) on a 3x3 grid, every raw encoding (n<=2, nnz<=3; thorough n<=3, nnz<=4) and every pair/quad of small blocks; results compared exactly with a dense reference and an independent canonical-form predicate. This is the bound the property itself names.",
          "dense reference + canonical predicate in mc/src/dense.rs are trusted; integer data so comparisons are exact; larger random shapes only as a labelled sampling supplement",
